@@ -836,7 +836,7 @@ pub fn run(run: &mut Run) {
     let known = run.open_finding("C16-apicbase-write-keeps-old-base", apic_reproduces);
     APIC_WRITE_KNOWN.store(known, std::sync::atomic::Ordering::Relaxed);
 
-    let n = run.cases(100_000, 5_000_000);
+    let n = run.cases(500_000, 20_000_000);
     run.sub(
         "flagregs",
         "(Cr0|Cr4|Efer|XCr0|Dr7) x prior 64-bit content (edge-biased) x argument bits x one of read/read_raw/write/write_raw/update; oracle: trap log touches only that architectural register (CR number / MSR index / DR number / XCR 0 typed in from the manuals), typed read = modelled bits of prior, typed write stores (prior & !modelled) | arg with exactly one write, raw write stores the value, update = read-modify-write with the closure called once, typed read after typed write returns the argument, XCr0 invalid combinations panic with an empty write log; non-trivial = prior has an unmodelled bit set and the argument differs from the prior in a modelled bit; distinct by (register, prior, arg, step)",
@@ -844,7 +844,7 @@ pub fn run(run: &mut Run) {
         (0u8..5, u64_edge(), prop_oneof![any::<u64>(), u64_edge()], u64_edge(), 0u8..5),
         flag_case,
     );
-    let n = run.cases(80_000, 5_000_000);
+    let n = run.cases(400_000, 16_000_000);
     run.sub(
         "cr3_cr2_dr",
         "Cr3 read/read_raw/read_pcid/write/write_pcid/write_pcid_no_flush/write_raw/update/update_pcid/update_pcid_no_flush, Cr2 read/read_raw, Dr0-3 read/write, Dr6 read/read_raw on any prior u64; oracle: exact value written (frame|flags, frame|pcid, 1<<63|frame|pcid), typed views of the prior, round trips; non-trivial = prior has bits outside frame|PWT|PCD set",
@@ -852,7 +852,7 @@ pub fn run(run: &mut Run) {
         (0u8..13, u64_edge(), phys(), any::<u16>(), any::<u16>()),
         cr3_case,
     );
-    let n = run.cases(100_000, 5_000_000);
+    let n = run.cases(500_000, 20_000_000);
     run.sub(
         "msrs",
         "Msr(any index), FsBase, GsBase, KernelGsBase, LStar, Star (raw, typed read, typed write with valid and arbitrary selector quadruples), SFMask, UCet, SCet, Pat, ApicBase (read, read_raw, write, write_raw) on priors from each wrapper's sound domain; oracle: rdmsr/wrmsr with ECX = the architectural index, EDX:EAX = full value, typed write semantics (ApicBase preserves unmodelled bits; others plain store), round trips, documented rejections (Star::write) return Err with an empty write log",
@@ -860,7 +860,7 @@ pub fn run(run: &mut Run) {
         (0u8..16, u64_edge(), prop_oneof![any::<u64>(), u64_edge()], (any::<u16>(), any::<u16>(), any::<u16>(), any::<u16>()), prop_oneof![any::<u32>(), Just(0xC000_0080u32), Just(0x1Bu32), Just(0x277u32)]),
         msr_case,
     );
-    let n = run.cases(40_000, 2_000_000);
+    let n = run.cases(200_000, 8_000_000);
     run.sub(
         "segments",
         "SS/DS/ES/FS/GS::set_reg (one trapped load of the right segment register with the exact selector), CS::set_reg (trapped retfq popping the label after the asm and the selector), get_reg vs harness asm, GS/FS base native round trips, GS::swap (one swapgs), load_tss (one ltr with the selector), mxcsr and rflags native round trips",
